@@ -222,10 +222,6 @@ pub(crate) async fn handle_run<'a>(
     if cfg.targets.is_empty() {
         return Err(MonorailError::from("No configured targets"));
     }
-    let mut tracking_run = get_next_tracking_run(cfg, &tracking_table)?;
-    let run_path = setup_run_path(cfg, tracking_run.id, work_path)?;
-    #[cfg(pnordahl_monorail_verif)]
-    crate::verif::point("run.slot.ready", &format!("{}", tracking_run.id));
     let commands = get_all_commands(cfg, &input.commands, &input.sequences)?;
     let mut argmap = ArgMap::new();
     let mut checkpointed = false;
@@ -292,6 +288,14 @@ pub(crate) async fn handle_run<'a>(
     };
 
     argmap.merge_run_input(input)?;
+
+    // Recycle a run slot only now that the invocation is known to be valid: an
+    // invocation rejected above (unknown sequence, bad arguments, graph or change
+    // provider errors) must not wipe the records of a previous run.
+    let mut tracking_run = get_next_tracking_run(cfg, &tracking_table)?;
+    let run_path = setup_run_path(cfg, tracking_run.id, work_path)?;
+    #[cfg(pnordahl_monorail_verif)]
+    crate::verif::point("run.slot.ready", &format!("{}", tracking_run.id));
 
     let plan = get_plan(
         &index,
